@@ -986,6 +986,20 @@ func TestVerifC11(t *testing.T) {
 	}
 	c11Keys, c11Rd = c11BuildDictionary(c11RepoDir())
 	thorough := c.Thorough()
+	var rf *vx.ReplayFile
+	if c.Replay != "" {
+		// the choice vector of a replay file is laid out by the tier that produced it
+		var err error
+		if rf, err = c.LoadReplay(); err != nil {
+			fmt.Println("TOOL-ERROR cannot load replay:", err)
+			os.Exit(2)
+		}
+		if rf.Tier == "thorough" || rf.Tier == "quick" {
+			thorough = rf.Tier == "thorough"
+			c.Tier = rf.Tier
+			os.Setenv("VERIF_TIER", rf.Tier) // worker processes read it
+		}
+	}
 	c.Rule = "inproc: one case = one .lfsconfig holding ONE dictionary key (section x subsection shape x variable; dictionary = curated list of every key git-lfs/git reads " +
 		"+ every key literal extracted from the Go sources of the tree at check time) in one spelling {lower, UPPER, Mixed, [section.sub] syntax} and multiplicity " +
 		"{single, duplicated, next to a safe key, via [include], injected through a newline in a safe key's value, followed by a garbage line} at one location " +
@@ -1008,7 +1022,8 @@ func TestVerifC11(t *testing.T) {
 	c.Bounds["git_levels"] = len(c11GitSides) - 1
 	c.Bounds["level_slice_keys"] = len(c11LevelKeys())
 	c.Bounds["inproc_space"] = map[bool]string{false: "union of 5 axis-aligned slices", true: "full product keys x spellings x multiplicities x locations x {absent,local} + level slice"}[thorough]
-	c.Bounds["reader_patterns_extracted_from_source"] = len(c11Rd.Extracted)
+	c.Bounds["reader_patterns_found_in_source"] = c11Rd.Found
+	c.Bounds["reader_patterns_not_in_curated_list"] = len(c11Rd.Extracted)
 
 	nw := runtime.NumCPU()
 	if nw > 16 {
@@ -1047,12 +1062,7 @@ func TestVerifC11(t *testing.T) {
 	e2e := c11NewE2E(scratch, thorough)
 	e2eExec := func(p []vx.Point) vx.Result { return vx.SafeRun(e2e.run, p) }
 
-	if c.Replay != "" {
-		rf, err := c.LoadReplay()
-		if err != nil {
-			fmt.Println("TOOL-ERROR cannot load replay:", err)
-			os.Exit(2)
-		}
+	if rf != nil {
 		exec := inprocExec
 		if rf.Scenario == "e2e" {
 			exec = e2eExec
